@@ -9,7 +9,8 @@
 (***************************************************************************)
 EXTENDS OpSem, Signature
 
-SeqOfSet(S) == CHOOSE s \in [1..Cardinality(S) -> S] : \A i, j \in 1..Cardinality(S) : i # j => s[i] # s[j]
+RECURSIVE SeqOfSet(_)
+SeqOfSet(S) == IF S = {} THEN <<>> ELSE LET x == CHOOSE x \in S : TRUE IN <<x>> \o SeqOfSet(S \ {x})
 
 \* env : name -> tensor (values).  The property semantics: a caller-supplied value wins over an initializer of the same name.
 Env0(g, ins) == [n \in (DOMAIN g.inits) \cup (DOMAIN ins) |-> IF n \in DOMAIN ins THEN ins[n] ELSE g.inits[n]]
@@ -19,24 +20,29 @@ BindVals(env, names, vals) ==
    LET real == {i \in 1..Len(names) : names[i] # ""} IN
    [n \in (DOMAIN env) \cup {names[i] : i \in real} |->
       IF \E i \in real : names[i] = n THEN vals[CHOOSE i \in real : names[i] = n /\ \A j \in real : names[j] = n => j <= i] ELSE env[n]]
+\* (Let forces one evaluation of its first argument: TLC would otherwise re-evaluate the lazily passed graph / environment
+\*  expressions at every tensor element access further down)
 RECURSIVE RunNodes(_, _, _)
-RunNodes(g, env, k) ==          \* -> [ok, err, env]
+RunNodes(g, env, k) ==          \* -> [ok, err, env]; err = "Indefinite" when an operator outcome is not fixed by the properties
    IF k > Len(g.nodes) THEN [ok |-> TRUE, err |-> "", env |-> env]
-   ELSE LET n == g.nodes[k] IN
+   ELSE Let(g.nodes[k], LAMBDA n :
         IF n.op \notin SupportedOps THEN [ok |-> FALSE, err |-> "UnsupportedOperator", env |-> env]
         ELSE IF ~Known_(env, n.ins) THEN [ok |-> FALSE, err |-> "Model", env |-> env]
-        ELSE LET a == NodeSem(n.op, n.attrs, GatherVals(env, n.ins), Len(n.outs)) IN
-             IF a.must # "value" THEN [ok |-> FALSE, err |-> "Operator", env |-> env]
-             ELSE IF Len(n.outs) > Len(a.value) THEN [ok |-> FALSE, err |-> "Model", env |-> env]
-             ELSE RunNodes(g, BindVals(env, n.outs, a.value), k + 1)
+        ELSE Let(GatherVals(env, n.ins), LAMBDA gathered :
+             Let(NodeSem(n.op, n.attrs, gathered, Len(n.outs)), LAMBDA a :
+                IF a.must = "error" THEN [ok |-> FALSE, err |-> "Operator", env |-> env]
+                ELSE IF a.must # "value" THEN [ok |-> FALSE, err |-> "Indefinite", env |-> env]
+                ELSE IF Len(n.outs) > Len(a.value) THEN [ok |-> FALSE, err |-> "Model", env |-> env]
+                ELSE Let(BindVals(env, n.outs, a.value), LAMBDA e2 : RunNodes(g, e2, k + 1)))))
 \* shapes of the supplied tensors
 ShapesOf_(ins) == [n \in DOMAIN ins |-> ins[n].shape]
-RunSem(g, ins) ==               \* -> [ok, errc (set of acceptable classes), out (seq of tensors, in the order of g.outputs)]
+RunSemV(g, ins) ==
    IF ~Accept(g.inputs, DOMAIN g.inits, ShapesOf_(ins))
    THEN [ok |-> FALSE, errc |-> RejectClasses(g.inputs, DOMAIN g.inits, ShapesOf_(ins)), out |-> <<>>]
-   ELSE LET r == RunNodes(g, Env0(g, ins), 1) IN
+   ELSE Let(RunNodes(g, Env0(g, ins), 1), LAMBDA r :
         IF ~r.ok THEN [ok |-> FALSE, errc |-> {r.err}, out |-> <<>>]
         ELSE IF \E i \in 1..Len(g.outputs) : g.outputs[i] \notin DOMAIN r.env THEN [ok |-> FALSE, errc |-> {"Model"}, out |-> <<>>]
-        ELSE [ok |-> TRUE, errc |-> {}, out |-> [i \in 1..Len(g.outputs) |-> r.env[g.outputs[i]]]]
-
+        ELSE [ok |-> TRUE, errc |-> {}, out |-> [i \in 1..Len(g.outputs) |-> r.env[g.outputs[i]]]])
+\* -> [ok, errc (set of acceptable classes), out (seq of tensors, in the order of g.outputs)]
+RunSem(g0, ins0) == Let(g0, LAMBDA g : Let(ins0, LAMBDA ins : RunSemV(g, ins)))
 =============================================================================
